@@ -813,6 +813,62 @@ def masks_before(c, f):
     return names
 
 
+# --------------------------------------------------------------------------- a bare-used type becomes a union, nothing else changes
+
+UNION_USAGE_KINDS = ["union-ctor-by-name", "union-ctor-by-name", "union-ctor-by-name", "union-pct-type", "union-pct-ctor"]
+
+
+def union_by_usage_pair(rng, kind):
+    """(old text, new text, where): a single-constructor type whose ONLY usages are bare -- by its lower-case
+    constructor name (kind union-ctor-by-name), as %Type or as %ctor (the controls) -- at one of the positions the
+    linter inspects (a field, the first type argument at any depth, a function argument, a function result), in a
+    combinator placed anywhere in the schema; the new schema only adds a second constructor.  tlgen itself refuses
+    a schema that references a union constructor, so these pairs go to CheckBackwardCompatibility directly, the way
+    the repository's unit test calls it (harness op 'direct')."""
+    g = Gen(rng)
+    s = g.schema(ntypes=rng.randrange(1, 5), nfuns=rng.randrange(0, 3))
+    n = rng.randrange(1000)
+    ns = rng.choice(["", "", "svc."])
+    ctor, typ = f"{ns}integer{n}", f"{ns}Integer{n}"
+    tgt = Comb(ctor, typ, [], [Field("value", T("int"))] if rng.random() < 0.8 else [])
+
+    def ref():
+        if kind == "union-ctor-by-name":
+            return T(ctor)
+        if kind == "union-pct-type":
+            return T(typ, bare=True)
+        return T(ctor, bare=True)
+
+    def wrap(t, depth):
+        for _ in range(depth):   # always the FIRST type argument: the only one checkBoxUsage descends into
+            w = rng.choice(["vector", "Vector", "tuple"])
+            t = T(w, [t, T(nat=rng.randrange(1, 4))] if w == "tuple" else [t], bare=(w == "Vector" and rng.random() < 0.3))
+        return t
+
+    where = rng.choice(["field", "field-last", "nested", "nested2", "fn-arg", "fn-arg-nested", "fn-result"])
+    depth = {"nested": 1, "nested2": 2, "fn-arg-nested": 1}.get(where, 0)
+    users = []
+    if where.startswith("fn-arg"):
+        users.append(Comb(f"getHolder{n}", "", [], [Field("q", g.scalar()), Field("x", wrap(ref(), depth))], isfun=True, res=T("Int")))
+    elif where == "fn-result":
+        users.append(Comb(f"getHolder{n}", "", [], [Field("q", g.scalar())], isfun=True, res=T("Vector", [wrap(ref(), rng.randrange(0, 2))])))
+    else:
+        fs = [Field("a", g.scalar()), Field("b", wrap(ref(), depth))]
+        if where == "field-last":
+            fs = [Field("a", g.scalar()), Field("m", T("#")), Field("c", g.scalar(), ("m", rng.randrange(32))), Field("b", wrap(ref(), depth))]
+        users.append(Comb(f"holder{n}", f"Holder{n}", [], fs))
+    if rng.random() < 0.3:   # a second, boxed usage elsewhere does not make the change safe
+        users.append(Comb(f"other{n}", f"Other{n}", [], [Field("z", T(typ))]))
+    old = s.copy()
+    for c in [tgt] + users:   # anywhere in the schema, declaration before or after the usage
+        old.combs.insert(rng.randrange(len(old.combs) + 1), c)
+    new = old.copy()
+    alt = Comb(f"{ctor}alt", typ, [], [Field("other", T("long"))] if rng.random() < 0.5 else [])
+    i = [c.name for c in new.combs].index(ctor)
+    new.combs.insert(rng.choice([i + 1, len(new.combs)]), alt)
+    return old.tl(), new.tl(), where
+
+
 # --------------------------------------------------------------------------- harness plumbing
 
 def lint_harness(ctx):
